@@ -122,9 +122,14 @@ func canon(s []span) ([]span, error) {
 		// Merge as many as possible into this element.
 		for j := i + 1; j < len(s); j++ {
 			next := s[j]
-			if !this.max.equal(next.min) { // If equal, we can merge unless both are open (handled below)
+			if this.max.lessThan(next.min) { // Disjoint: merge only if the closed ends abut.
 				if len(this.max.pre) == 0 {
+					if this.maxOpen || next.minOpen {
+						// An excluded end point lies between the two spans.
+						break
+					}
 					maxPlusOne := this.max.copy()
+					maxPlusOne.fill(0)
 					err := maxPlusOne.inc()
 					if err != nil {
 						return nil, err
@@ -136,6 +141,8 @@ func canon(s []span) ([]span, error) {
 				} else {
 					continue // Too difficult for now, but may be covered by another span. TODO?
 				}
+			} else if !this.max.equal(next.min) && len(this.max.pre) != 0 {
+				continue // Too difficult for now, but may be covered by another span. TODO?
 			}
 			// Max equals min, but don't merge if both open.
 			if this.maxOpen && next.minOpen {
